@@ -131,6 +131,10 @@ def mutants(design, classes=None):
                             extra = some_scalar(design, mname)
                             if extra and e[0] in ("anon", "dict"):
                                 out.append(("anon_member_width", site, replace_conn(design, mname, di, ci, set_at(e, path, ("cat", [sub, extra]))), {"width"}))
+                    elif k in ("anon", "dict") and not path:
+                        extra = some_scalar(design, mname)
+                        if extra:
+                            out.append(("anon_extra_member", site, replace_conn(design, mname, di, ci, (k, list(sub[1]) + [("zzextra", extra)])), {"extra_member"}))
                     elif k == "b":
                         dec = refsem.mod_names(mod).get(sub[1])
                         if dec:
